@@ -1,6 +1,7 @@
 /* stdio model for C16: one in-memory file (content and length set by the harness, may be symbolic)
  * behind fopen/fgets/fclose, and sscanf restricted to the directive kinds pinifile.c uses
- * (white space, literal characters, %%, %[set] / %[^set] with optional field width), written from
+ * (white space, literal characters, %%, %[set] / %[^set] with optional field width; plus the numeric
+ * conversions d i u x o f e g without width, should a unit start using them), written from
  * C11 7.21.6.2 / 7.21.7.2 and validated against glibc by lib/sscanf_diff.c. */
 #ifndef VM_STDIO_MODEL_H
 #define VM_STDIO_MODEL_H
